@@ -118,4 +118,52 @@ theorem empty_spec (key : Str) :
   refine ⟨?_, ?_, ?_, ?_, ?_, ?_, ?_⟩ <;>
     simp [aggregate, bufferSum, colValues, listMin, listMax, showInt, showNat_zero]
 
+/-! ### a column that is empty for some entries (e.g. `line_count` of a directory) -/
+
+/-- buffered rows in which some entries have no value for `key` (an empty cell) -/
+def rowsOfOpt (key : Str) (xs : List (Option Nat)) : List Memo :=
+  xs.map fun x => [(key, match x with | some n => showNat n | none => [])]
+
+theorem colValues_rowsOfOpt (key : Str) (xs : List (Option Nat)) :
+    colValues (rowsOfOpt key xs) key = xs.map fun x => match x with | some n => showNat n | none => [] := by
+  induction xs with
+  | nil => rfl
+  | cons x xs ih =>
+    simp only [rowsOfOpt, List.map_cons, colValues, List.filterMap_cons] at *
+    have : Memo.get? [(key, match x with | some n => showNat n | none => [])] key =
+        some (match x with | some n => showNat n | none => []) := by simp [Memo.get?, lookup]
+    rw [this, ih]
+
+theorem parseUsize_empty : parseUsize? [] = none := by decide
+
+theorem filterMap_parseUsize_opt (xs : List (Option Nat)) (h : ∀ x ∈ xs, ∀ n, x = some n → n ≤ u64Max) :
+    (xs.map fun x => match x with | some n => showNat n | none => []).filterMap parseUsize? = xs.filterMap id := by
+  induction xs with
+  | nil => rfl
+  | cons x xs ih =>
+    have ih' := ih (fun y hy => h y (by simp [hy]))
+    cases x with
+    | none => simp only [List.map_cons, List.filterMap_cons, parseUsize_empty, id]; exact ih'
+    | some n =>
+      simp only [List.map_cons, List.filterMap_cons, parseUsize_showNat n (h (some n) (by simp) n rfl), id]
+      rw [ih']
+
+/-- SUM skips the entries without a value -/
+theorem sum_spec_partial (key : Str) (xs : List (Option Nat)) (h : ∀ x ∈ xs, ∀ n, x = some n → n ≤ u64Max) :
+    aggregate .Sum (rowsOfOpt key xs) key = (showNat (xs.filterMap id).sum, true) := by
+  simp only [aggregate, bufferSum, colValues_rowsOfOpt, filterMap_parseUsize_opt xs h]
+
+/-- **AVG = SUM / COUNT, also when some entries have no value**: every matching entry counts in the
+    denominator (COUNT is the number of rows, `count_spec`), only the values that exist are summed -/
+theorem avg_spec_partial (key : Str) (xs : List (Option Nat)) (h : ∀ x ∈ xs, ∀ n, x = some n → n ≤ u64Max) :
+    meanQ (rowsOfOpt key xs) key = ((xs.filterMap id).sum : Rat) / (xs.length : Rat) := by
+  have hl : (rowsOfOpt key xs).length = xs.length := by simp [rowsOfOpt]
+  simp only [meanQ, bufferSum, colValues_rowsOfOpt, filterMap_parseUsize_opt xs h, hl]
+
+/-- two files with 2 and 4 lines and a directory: COUNT 3, SUM 6, AVG 2 (not 3) -/
+example : meanQ (rowsOfOpt (ofS "line_count") [some 2, some 4, none]) (ofS "line_count") = 2 := by
+  rw [avg_spec_partial _ _ (by decide)]
+  show ((6 : Nat) : Rat) / ((3 : Nat) : Rat) = 2
+  decide +kernel
+
 end Fsel.C07
